@@ -67,8 +67,20 @@ Fixpoint limits_ok_from (b : N) (limits : list N) (dg : digest) : bool :=
       && limits_ok_from (b + 1) r dg
   end.
 
+(* the table of connected sessions and the expiry list say what the sessions themselves say: a session is in the
+   clients table exactly when a connection is attached to it, and only sessions without a connection wait for expiry
+   (a session entered into the expiry list while its connection is attached is closed one expiry window later although
+   its client is there; an entry of the clients table for a session without connection is residue of a connection that
+   is gone) *)
+Definition has_conn (x : sd) : bool := match x.(d_conn) with Some _ => true | None => false end.
+Definition expiring_unattached (dg : digest) : bool :=
+  forallb (fun sid => match find_sd dg sid with Some x => negb (has_conn x) | None => true end) dg.(g_expired).
+Definition clients_attached (dg : digest) : bool :=
+  forallb (fun sid => match find_sd dg sid with Some x => has_conn x | None => false end) dg.(g_clients)
+  && forallb (fun x => is_virtual_d x || negb (has_conn x) || nmem x.(d_sid) dg.(g_clients)) dg.(g_sessions).
+
 Definition digest_C07 (limits : list N) (dg : digest) : bool :=
-  refs_live dg && registrations_exact dg && limits_ok_from 0 limits dg.
+  refs_live dg && registrations_exact dg && limits_ok_from 0 limits dg && expiring_unattached dg && clients_attached dg.
 
 (* ------------------------------------------------------------------ C04: room membership (server side) *)
 Definition rs_consistent (dg : digest) : bool :=
@@ -482,6 +494,10 @@ Definition closing_for (x : sd) (m : smsg) : bool :=
 
 Definition step_C06 (ps : pstate) (o : op) (ob : obs) (dg : digest) : bool :=
   let pd := ps.(ps_prev) in
+  (* "stays in its room, and receives every message": a session that has a connection is not waiting for expiry (after
+     any op: a resumed session that is still, or again, in the expiry list is closed one window later under its client)
+     and is known to the hub as connected *)
+  expiring_unattached dg && clients_attached dg &&
   match o with
   | OHello c (HResume i) =>
       match sd_of_conn pd c with
@@ -546,7 +562,13 @@ Definition step_C06 (ps : pstate) (o : op) (ob : obs) (dg : digest) : bool :=
       | Some x => negb (live dg x.(d_sid)) && forallb (fun rm => let '(_, m, _) := rm in negb (nmem x.(d_sid) m)) dg.(g_rooms)
       | None => true end
   | OTick secs =>
-      if 30 <? secs then forallb (fun sid => negb (live dg sid)) pd.(g_expired) else true
+      (if 30 <? secs then forallb (fun sid => negb (live dg sid)) pd.(g_expired) else true)
+      (* the passing of time ends no session that has its connection (and is not an anonymous session waiting for a
+         room, which is told and closed): it is still there, with the same connection, in the same room *)
+      && forallb (fun x => is_virtual_d x || negb (has_conn x) || nmem x.(d_sid) pd.(g_anonymous) ||
+                           match find_sd dg x.(d_sid) with
+                           | Some y => optN_eqb y.(d_conn) x.(d_conn) && opt_pair_eqb y.(d_room) x.(d_room)
+                           | None => false end) pd.(g_sessions)
   | _ => true
   end.
 
@@ -750,7 +772,12 @@ Record pcfg := mkpcfg { pc_limits : list N; pc_quiescent : bool }.
 Definition ps_next (ps : pstate) (o : op) (ob : obs) (dg : digest) : pstate :=
   let pd := ps.(ps_prev) in
   let q1 := update_queue_b ps.(ps_broken) pd o ps.(ps_queue) in
-  let br1 := match wfail_of pd o with Some c => nadd c ps.(ps_broken) | None => ps.(ps_broken) end in
+  let br0 := match wfail_of pd o with Some c => nadd c ps.(ps_broken) | None => ps.(ps_broken) end in
+  (* a connection that was cut and is still attached to its session in the server's tables (its handler is inside a
+     request): the server can no longer write to it *)
+  let br1 := match o with
+             | ODrop c => match sd_of_conn dg c with Some _ => nadd c br0 | None => br0 end
+             | _ => br0 end in
   let br2 := filter (fun c => match sd_of_conn dg c with Some _ => true | None => false end) br1 in
   (* a successful resume empties the queue of that session; ended sessions are forgotten *)
   let q2 := match o with
